@@ -222,6 +222,17 @@ def run_tracker(case, ctx):
         for t, data in enumerate(frames):
             tr.handle(ScalarField(grid, data), float(t))
             ctx.op()
+        # third entry point: the offline analysis of a stored sequence
+        from pde import MemoryStorage
+
+        from droplets import EmulsionTimeCourse
+
+        st = MemoryStorage()
+        st.start_writing(ScalarField(grid, frames[0]))
+        for t, data in enumerate(frames):
+            st.append(ScalarField(grid, data), float(t))
+        etc = EmulsionTimeCourse.from_storage(st, threshold=rule, minimal_radius=0.0, progress=False)
+        ctx.op(len(frames))
     except Exception as e:  # noqa
         ctx.check("C18.same-as-mask", False, {"exc": repr(e)[:300]}, tags)
         return
@@ -245,6 +256,8 @@ def run_tracker(case, ctx):
             uniq.setdefault((data > T).tobytes(), T)
         refs = [[k for k in key(locate_droplets_in_mask(ScalarField(grid, data > T, dtype=bool))) if k[2] > 0.0] for T in uniq.values()]
         ctx.check("C18.same-as-mask", any(got == r for r in refs), {"frame": t, "rule": rule, "got": got, "want": refs[0], "data": data}, tags)
+        got2 = key(etc[t])
+        ctx.check("C18.same-as-mask", any(got2 == r for r in refs), {"frame": t, "rule": rule, "got": got2, "want": refs[0], "data": data}, dict(tags, entry="from_storage"))
         ctx.count("tracker-frames")
 
 
